@@ -15,23 +15,26 @@ import (
 
 	"lbcheck/eng"
 	"lbcheck/ir"
+	"lbcheck/norm"
 	"lbcheck/rules"
 )
 
 var (
-	flagProp    = flag.String("prop", "", "property id (C01..C19), comma list, or 'all'")
-	flagTier    = flag.String("tier", "", "quick or thorough (default: $VERIF_TIER or quick)")
-	flagRepo    = flag.String("repo", "/repo", "repository root")
-	flagVerif   = flag.String("verif", "", "verif root (default: directory above the binary)")
-	flagReplay  = flag.String("replay", "", "replay file: re-evaluate that obligation and print the diagnosis")
-	flagList    = flag.Bool("list", false, "print every obligation")
-	flagOverlay = flag.String("overlay", "", "JSON file mapping source paths to replacement files (sensitivity audit / seeded self-test)")
-	flagTry     = flag.String("trypatch", "", "apply a unified diff through the overlay and print the new failing obligations of -prop (default all)")
-	flagSelf    = flag.Bool("selftest", false, "evaluate every seeded change in seeded/ and every benign variant in selftest/benign/ through the overlay")
-	flagWorker  = flag.String("audit-worker", "", "internal: evaluate a batch of mutants (JSON file) and print one JSON outcome per line")
-	flagNoAudit = flag.Bool("no-audit", false, "thorough tier without the mutant sensitivity audit")
-	flagMani    = flag.Bool("manifest", false, "print MANIFEST.json generated from the registered properties")
-	flagNoEv    = flag.Bool("no-evidence", false, "do not write evidence/replay files (used by the audit)")
+	flagProp     = flag.String("prop", "", "property id (C01..C19), comma list, or 'all'")
+	flagTier     = flag.String("tier", "", "quick or thorough (default: $VERIF_TIER or quick)")
+	flagRepo     = flag.String("repo", "/repo", "repository root")
+	flagVerif    = flag.String("verif", "", "verif root (default: directory above the binary)")
+	flagReplay   = flag.String("replay", "", "replay file: re-evaluate that obligation and print the diagnosis")
+	flagList     = flag.Bool("list", false, "print every obligation")
+	flagOverlay  = flag.String("overlay", "", "JSON file mapping source paths to replacement files (sensitivity audit / seeded self-test)")
+	flagTry      = flag.String("trypatch", "", "apply a unified diff through the overlay and print the new failing obligations of -prop (default all)")
+	flagSelf     = flag.Bool("selftest", false, "evaluate every seeded change in seeded/ and every benign variant in selftest/benign/ through the overlay")
+	flagWorker   = flag.String("audit-worker", "", "internal: evaluate a batch of mutants (JSON file) and print one JSON outcome per line")
+	flagNoAudit  = flag.Bool("no-audit", false, "thorough tier without the mutant sensitivity audit")
+	flagWriteRef = flag.Bool("write-reference", false, "write checker/norm/reference_funcs.txt from the current tree and exit")
+	flagNoNorm   = flag.Bool("no-normalise", false, "do not inline helpers that are not on the reference tree")
+	flagMani     = flag.Bool("manifest", false, "print MANIFEST.json generated from the registered properties")
+	flagNoEv     = flag.Bool("no-evidence", false, "do not write evidence/replay files (used by the audit)")
 )
 
 func verifRoot() string {
@@ -154,6 +157,30 @@ func main() {
 		}
 		os.Exit(1)
 	}
+	if *flagWriteRef {
+		list := norm.ListFuncs(prog)
+		out := "# functions declared on the reference tree (one key per line); anything else is a new helper that lbcheck inlines\n# into its callers before the rules run — regenerate with: lbcheck -prop C01 -write-reference\n" + strings.Join(list, "\n") + "\n"
+		if err := os.WriteFile(filepath.Join(root, "checker", "norm", "reference_funcs.txt"), []byte(out), 0o644); err != nil {
+			fmt.Println(err)
+			os.Exit(2)
+		}
+		fmt.Printf("wrote %d function keys\n", len(list))
+		os.Exit(0)
+	}
+	var normNotes []string
+	if !*flagNoNorm {
+		nr, nerr := normalize(prog)
+		if nerr != nil {
+			fmt.Printf("NOTE normalisation skipped: %v\n", nerr)
+			normNotes = append(normNotes, "normalisation skipped: "+nerr.Error())
+		} else {
+			prog = nr.Prog
+			normNotes = nr.Notes
+			for _, n := range nr.Notes {
+				fmt.Println("NOTE " + n)
+			}
+		}
+	}
 	stats := prog.Stats()
 	if stats.Packages < 11 {
 		fmt.Printf("LOAD-FAILURE: only %d module packages loaded (expected >= 11)\n", stats.Packages)
@@ -168,6 +195,9 @@ func main() {
 		t1 := time.Now()
 		pr := rules.Get(id)
 		c := eng.NewCtx(prog, id, tier)
+		for _, n := range normNotes {
+			c.Note("%s", n)
+		}
 		func() {
 			defer func() {
 				if r := recover(); r != nil {
@@ -460,4 +490,11 @@ func readOverlay(path string) (map[string][]byte, error) {
 		out[k] = c
 	}
 	return out, nil
+}
+
+// normalize inlines helpers that are not on the reference tree (package norm).
+func normalize(p *ir.Program) (*norm.Result, error) {
+	return norm.Normalize(p, norm.Reference(), func(ov map[string][]byte) (*ir.Program, error) {
+		return ir.Load(ir.Options{Dir: p.Dir, Whole: p.Whole, Overlay: ov})
+	})
 }
